@@ -114,6 +114,7 @@ class Program:
         if debug_assertions:
             self.features.add('debug_assertions')
         self.repo = repo
+        self.cache = cache
         self.fns = []
         self.mir_files = {}
         os.makedirs(os.path.join(cache, 'parse'), exist_ok=True)
@@ -221,6 +222,9 @@ class Program:
         for d in ok:
             fp = d.file.replace('.rs', '').split('/')
             sc = sum(1 for q in quals if q in fp)
+            fp2 = [x for x in fp if x != 'mod']
+            if quals and fp2[-len(quals):] == quals:
+                sc += 10      # the module path named by the type is exactly the file's module path
             if sc > bs:
                 best, bs = d, sc
         return best
@@ -440,6 +444,12 @@ class Program:
                     c = inh
                 c = self._narrow_by_runtime(c, args, eng)
                 c = self._narrow_by_arity(c, args)
+                if len(c) > 1 and len(segs) >= 3:
+                    # two types with the same name in different modules: the impl lives in the module named by the callee path
+                    mod = '::'.join(strip_generics(x) for x in segs[:-2])
+                    c2 = [x for x in c if x[0].name.startswith(mod + '::<impl') or ('::' + mod + '::<impl') in x[0].name]
+                    if c2:
+                        c = c2
                 if len(c) == 1:
                     return c[0][0], self._subst_for(c[0], st, raw, fr)
                 if len(c) > 1:
@@ -486,9 +496,63 @@ class Program:
                     if a in gens:
                         b = subst_params(b, fr.subst) if fr is not None and fr.subst else b
                         subst[a] = b
+        t = self._turbofish_subst(raw, fr, f)
+        if t:
+            for k, v in t.items():
+                subst[k] = v      # the method's own parameters shadow the impl's
         return subst or None
-    def _subst_free(self, f, raw, fr):
+    def _fn_gen_idx(self):
+        idx = getattr(self, '_fn_gen_index', None)
+        if idx is None:
+            idx = {}
+            for rel, src in self.items.files.items():
+                for m in re.finditer(r'\bfn\s+(\w+)\s*<([^>()]*)>\s*\(', src):
+                    ps = []
+                    for part in split_top(m.group(2), ','):
+                        part = part.strip()
+                        if not part or part.startswith("'") or part.startswith('const '):
+                            continue
+                        ps.append(part.split(':')[0].strip())
+                    line = src.count('\n', 0, m.start()) + 1
+                    idx.setdefault(m.group(1), []).append((rel, line, tuple(ps)))
+            self._fn_gen_index = idx
+        return idx
+    def fn_generics(self, name, f=None):
+        """type parameter names of `fn name<..>` from the source: the definition inside f's impl block when f is a method,
+        otherwise the unique definition of that name (None when absent or ambiguous)"""
+        c = self._fn_gen_idx().get(name)
+        if not c:
+            return None
+        if f is not None:
+            m = re.search(r'<impl at ([^:>]+):(\d+):', f.name)
+            if m:
+                rel, l0 = m.group(1), int(m.group(2))
+                c2 = sorted(x for x in c if x[0] == rel and x[1] >= l0)
+                if c2:
+                    return list(c2[0][2])
+                return None
+        ps = {x[2] for x in c}
+        if len(ps) == 1:
+            return list(next(iter(ps)))
         return None
+    def _turbofish_subst(self, raw, fr, f=None):
+        segs = split_path(raw)
+        last = segs[-1]
+        name = strip_generics(last)
+        if '<' not in last:
+            return None
+        args = ty_args(norm_ty('X' + last[last.index('<'):]))
+        gens = self.fn_generics(name, f)
+        if not gens or len(gens) != len(args):
+            return None
+        out = {}
+        for g, a in zip(gens, args):
+            if fr is not None and fr.subst:
+                a = subst_params(a, fr.subst)
+            out[g] = a
+        return out
+    def _subst_free(self, f, raw, fr):
+        return self._turbofish_subst(raw, fr, f)
     # ------------------------------------------------------------------ layouts
     def layout(self, ty):
         ty = norm_ty(ty)
@@ -509,7 +573,22 @@ class Program:
             return (8, 8)
         if self._layout is None:
             self._load_layouts()
-        r = self._layout.get(ty) or self._layout.get(ty_head(ty))
+        r = self._layout.get(ty)
+        if r is None:
+            # MIR prints trimmed paths (instance::header::Header<unboxed::Value>): the head must match by path suffix, generic
+            # arguments by their last path segments; all matches must agree
+            canon = lambda t: re.sub(r'(?:\w+::)+(\w+)', r'\1', t)
+            t2 = ty[len('laythe_core::'):] if ty.startswith('laythe_core::') else ty
+            qh, _, qa = t2.partition('<')
+            qa = canon(qa)
+            c = set()
+            for k, v in self._layout.items():
+                kh, _, ka = k.partition('<')
+                if (kh == qh or kh.endswith('::' + qh)) and canon(ka) == qa:
+                    c.add(v)
+            if len(c) == 1:
+                r = next(iter(c))
+                self._layout[ty] = r
         if r is None:
             raise Unsupported('layout of ' + ty)
         return r
